@@ -47,7 +47,6 @@ type class struct {
 
 var errInjected = errors.New("code: 241, message: Memory limit (total) exceeded (injected by fakesql)")
 
-
 func lbl(i int) map[string]string {
 	return map[string]string{"a": "b", "n": fmt.Sprint(i)}
 }
